@@ -37,6 +37,7 @@ def run(ctx):
     ctx.rule(sphere_container)
     ctx.rule(names_exist)
     ctx.rule(total_on_empty)
+    ctx.rule(streams_by_protocol)
 
 
 def _chain(f):
@@ -659,6 +660,62 @@ def total_on_empty(ctx, R="R-C11-readers"):
         ctx, R, [ctx.prog.func("util.read_signal")],
         "no reduction without an identity is applied to the data read (an empty signal is read back like any other)",
         "a stored zero-length signal can no longer be read (the arguments of a logging call are evaluated whatever the level)")
+
+
+_STREAM_API = {"read", "readinto", "readline", "readlines", "seek", "tell", "close", "closed", "seekable", "readable", "flush", "peek", "read1",
+               "__enter__", "__exit__", "write", "mode"}
+
+
+def streams_by_protocol(ctx, R="R-C11-stream-guards"):
+    """An open binary stream is whatever supports the file protocol: io.BytesIO, a tar member, a pipe, a network response.  Only real
+    files carry attributes such as ``name`` or ``fileno``.  A reader that touches one of those on the object it was given - outside
+    a ``hasattr`` / ``getattr(..., default)`` / ``except AttributeError`` guard - works for ``open(path, "rb")`` and raises
+    AttributeError for every other stream (and wds_read_signal, which always wraps its bytes in BytesIO, then returns None for data
+    it could decode)."""
+    from . import partial
+    prog = ctx.prog
+    roots = [prog.func("util.read_signal")]
+    try:
+        roots.append(prog.func("_sphere.sphere_read_signal"))
+    except Exception:
+        pass
+    what = "a stream is used through the file protocol only (read / seek / tell ...): nothing a BytesIO lacks is required of it"
+    n = 0
+    funcs = []
+    for r in roots:
+        for g in partial.closure(prog, [r]):
+            if g not in funcs:
+                funcs.append(g)
+    for g in funcs:
+        streams = [p for p in g.params[:1] if p in ("rfilename", "file_", "fp", "stream", "f", "fileobj")]
+        if not streams:
+            continue
+        pm = astq.parents(g)
+        for x in g.body_nodes():
+            if not (isinstance(x, ast.Attribute) and isinstance(x.ctx, ast.Load) and isinstance(x.value, ast.Name) and x.value.id in streams):
+                continue
+            if x.attr in _STREAM_API or x.attr in dir(str):
+                continue   # the file protocol; or a string method: the value is a path name there, not a stream
+            n += 1
+            anc = list(astq.ancestors(pm, x))
+            guarded = False
+            for a in anc:
+                if isinstance(a, (ast.If, ast.IfExp)):
+                    for y in ast.walk(a.test):
+                        if isinstance(y, ast.Call) and isinstance(y.func, ast.Name) and y.func.id == "hasattr" and len(y.args) == 2 \
+                                and astq.const_str(y.args[1]) == x.attr and not any(z is x for z in ast.walk(a.test)):
+                            guarded = True
+                        if isinstance(y, ast.Call) and isinstance(y.func, ast.Name) and y.func.id == "isinstance" and any(
+                                isinstance(z, ast.Name) and z.id == "str" for z in ast.walk(y)):
+                            guarded = True   # the path-name branch: the object is a str there, not a stream
+                if isinstance(a, ast.Try) and any(x in list(ast.walk(st)) for st in a.body) and any(
+                        h.type is None or any(t in astq.text(h.type) for t in ("AttributeError", "Exception")) for h in a.handlers):
+                    guarded = True
+            if guarded:
+                continue
+            ctx.bad(R, g, astq.enclosing_stmt(pm, x), "`%s.%s` is read without a guard: an in-memory stream (io.BytesIO, what wds_read_signal hands over) has no such "
+                    "attribute, so data that could be decoded raises AttributeError instead" % (x.value.id, x.attr), what, robust=True)
+    ctx.ok(R, roots[0].loc(), what, "%d function(s) inspected, %d non-protocol attribute read(s), all guarded" % (len(funcs), n))
 
 
 def names_exist(ctx, R="R-C11-dispatch-tables"):
